@@ -444,7 +444,17 @@ func VerifH_registry() {
 					}
 				}
 			}
-			hd, perr := cur.pickMethodHandler(me.name)
+			// the random pick forks over the handler list: it is exercised after the last step only (a
+			// fork at every step would multiply the histories); the lists themselves are checked above
+			var hd *handler
+			var perr error
+			if step == steps-1 {
+				hd, perr = cur.pickMethodHandler(me.name)
+			} else if want > 0 && len(hds) > 0 {
+				hd = hds[0]
+			} else {
+				perr = errVfCodec
+			}
 			if want > 0 {
 				vfCheck(perr == nil && hd != nil, "a method with a live backend is reported unimplemented")
 				m, ps, merr := cur.match(me.route, me.verb)
